@@ -529,6 +529,8 @@ type Gen struct {
 	noViews bool
 	// one wanted index per table and scenario (several would get in each other's way)
 	wantOf map[string][]string
+	// C24: the keys of the tables as created (the database exists before the statements)
+	keysOf map[string][][]string
 }
 
 var colPool = []string{"a", "b", "c", "d", "e", "f", "x", "y", "z"}
